@@ -55,6 +55,7 @@ def shards(tier):
         for b in range(n + 1, m + 1):
             out.append(dict(kind="torus", w=a, h=b, narrow=1))
             out.append(dict(kind="torus", w=b, h=a, narrow=1))
+    out += [dict(kind="torus_history", w=w) for w in range(1, 7)]
     out.append(dict(kind="mesh"))
     out.append(dict(kind="links"))
     out.append(dict(kind="hexagons"))
@@ -275,6 +276,50 @@ def run_torus(w, h, tier, acc, narrow=False):
     acc.sample(dict(w=w, h=h, pairs=len(chips) ** 2))
 
 
+def run_torus_history(wa, tier, acc):
+    """Call histories across tori: every source/destination pair on torus A,
+    then every pair on torus B (all ordered pairs A != B from 1..6 x 1..6
+    sharing a width, a height, or transposed).  B's answers must be B's BFS
+    distances whatever was asked before."""
+    from rig import geometry
+    for ha in range(1, 7):
+        others = [(wa, h) for h in range(1, 7) if h != ha] + \
+            [(w, ha) for w in range(1, 7) if w != wa]
+        if wa != ha:
+            others.append((ha, wa))
+        for wb, hb in others:
+            bad = None
+            for (w, h) in ((wa, ha), (wb, hb)):
+                chips = [(x, y) for x in range(w) for y in range(h)]
+                for s in chips:
+                    dist = torus_dist(w, h, s)
+                    for d in chips:
+                        acc.evaluations += 1
+                        acc.nontrivial += 1
+                        try:
+                            got = geometry.shortest_torus_path_length(
+                                rep(s, 0), rep(d, 0), w, h)
+                            v = geometry.shortest_torus_path(
+                                rep(s, 0), rep(d, 0), w, h)
+                            if sum(abs(c) for c in v) != dist[d]:
+                                got = "path %r" % (v,)
+                        except Exception as e:
+                            got = "%s: %s" % (type(e).__name__, e)
+                        if got != dist[d] and bad is None:
+                            bad = (w, h, s, d, got, dist[d])
+            if bad:
+                acc.violation(
+                    dict(kind="torus_history"),
+                    dict(kind="torus_history", wa=wa, a=[wa, ha],
+                         b=[wb, hb]),
+                    "after querying every pair on a %dx%d torus and then "
+                    "every pair on a %dx%d torus: on %dx%d, %r -> %r gives "
+                    "%r, BFS distance is %r"
+                    % ((wa, ha, wb, hb) + bad), size=wa * ha + wb * hb)
+            acc.outcome("history_pair")
+    acc.sample(dict(kind="torus_history", wa=wa))
+
+
 def run_mesh(tier, acc):
     from rig import geometry
     md = mesh_dist()
@@ -427,6 +472,8 @@ def run_shard(params, tier, acc):
     if k == "torus":
         run_torus(params["w"], params["h"], tier, acc,
                   bool(params.get("narrow")))
+    elif k == "torus_history":
+        run_torus_history(params["w"], tier, acc)
     elif k == "mesh":
         run_mesh(tier, acc)
     elif k == "links":
@@ -445,6 +492,8 @@ def replay(case, acc):
         sub = type(acc)()
         run_torus_cell(w, h, case, sub)
         acc.violations.update(sub.violations)
+    elif k == "torus_history":
+        run_torus_history(case["wa"], "quick", acc)
     elif k == "mesh":
         run_mesh("thorough", acc)
     elif k == "links":
